@@ -2,10 +2,10 @@
 EXTENDS Directives
 Dir(t, s, f, v, l) == [t |-> t, s |-> s, f |-> f, v |-> v, l |-> l]
 \* quick universe: 2 targets x {no span, s1} x {no field, k, k=1} x 3 levels
-DirUQ == {Dir(t, s, fv[1], fv[2], l) : t \in {"", "a"}, s \in {"", "s1"}, fv \in {<<"", 0>>, <<"k", 0>>, <<"k", 1>>}, l \in {0, 3, 5}}
+DirUQ == {Dir(t, s, fv[1], fv[2], l) : t \in {"", "a"}, s \in {"", "s1"}, fv \in {<<"", "">>, <<"k", "">>, <<"k", "1">>}, l \in {0, 3, 5}}
 SpanUQ == {[lvl |-> lvl, tgt |-> tgt, name |-> n] : lvl \in {4}, tgt \in {"a"}, n \in {"s1", "s2"}}
 SpanUM == {[lvl |-> lvl, tgt |-> tgt, name |-> n] : lvl \in {3, 5}, tgt \in {"a", "b"}, n \in {"s1", "s2"}}
 \* thorough universe
-DirUT == {Dir(t, s, fv[1], fv[2], l) : t \in {"", "a", "a::b"}, s \in {"", "s1", "s2"}, fv \in {<<"", 0>>, <<"k", 0>>, <<"k", 1>>}, l \in {0, 2, 3, 5}}
+DirUT == {Dir(t, s, fv[1], fv[2], l) : t \in {"", "a", "a::b"}, s \in {"", "s1", "s2"}, fv \in {<<"", "">>, <<"k", "">>, <<"k", "1">>}, l \in {0, 2, 3, 5}}
 SpanUT == {[lvl |-> lvl, tgt |-> tgt, name |-> n] : lvl \in {2, 3, 5}, tgt \in {"a", "a::b", "b"}, n \in {"s1", "s2"}}
 =============================================================================
